@@ -80,6 +80,7 @@ def padTo (tag qlen : Nat) (base : Bytes) : Bytes :=
 variant `<prefix><tag>/é✓…`, or the empty path -/
 def queryOf (pre : String) (tag : Nat) (w : W) : Bytes :=
   if w.pv = 2 then []
+  else if w.pv = 3 then (pre ++ toString tag).toUTF8.toList ++ ((List.replicate 15 [47, 115]).flatten : Bytes)
   else if w.pv = 1 then padTo tag w.qlen ((pre ++ toString tag ++ "/é✓").toUTF8.toList)
   else
     let base := ((if w.xr then "/nope/" else pre) ++ toString tag).toUTF8.toList
@@ -109,11 +110,11 @@ def shape (ep : Nat) (k : Char) : Option (String × Bool × Nat) :=
      else if k = 'o' then some ("/o/", false, 2)
      else if (k = 'p' ∨ k = 'B' ∨ k = 'h') ∧ ep = 5 then some ("/p/", true, 0) else none)
 
-/-- The frame of writer `tag` (tags from 100 on: the notify a handler pushes while serving request `tag-100`).
+/-- The frame of writer `tag` (tags from 10000 on: the notify a handler pushes while serving request `tag-10000`).
 `opaque = some L`: a frame of `L` bytes whose content the model does not produce (error response, BEVE body,
 notify byte other than 0/1); only its length matters and no digest is printed. -/
 def frameOf (ep : Nat) (ws : List W) (tag id : Nat) (opq : Option Nat := none) : Option LFrame := do
-  if tag ≥ 100 then
+  if tag ≥ 10000 then
     pure { id := id, notify := true, query := queryOf "/p/" tag { kind := 'p', size := 64 }, qfmt := 1, bfmt := 0,
            json := false, tag := tag, blen := 64 }
   else
